@@ -164,6 +164,10 @@ NegCases(sigs) ==
      \* attempts to give the hidden slot a value through the public API (outside the documented domain): only the consequence is checked
      \cup { History(L3, sigs, <<KeygenStep(keyL, 0, 0), IF nd = 1 THEN NdQualStep(1, fl, 0) ELSE QualStep(1, fl, 0, 4), EncStepC(fl), DecStep(3, 2)>>, "neg", "fill-hidden")
             : fl \in fills, nd \in {0, 1} }
+     \* slots hidden by resampling without further delegation (with and without signature support: sigs is the family parameter)
+     \cup { History(L3, sg, <<KeygenStep(ListOf(<<<<"V", v7>>, <<"U">>, <<"U">>>>, 1), 0, 0), PreStep(ListOf(<<<<"V", v7>>, <<"U">>, <<"U">>>>, 1)), ResampleStep(1, 2, 0, 8),
+                               IF nd = 1 THEN NdQualStep(3, fl, 0) ELSE QualStep(3, fl, 0, 4), EncStepC(fl), DecStep(5, 4)>>, "neg", "fill-hidden-resample")
+            : fl \in fills, nd \in {0, 1}, sg \in {0, 1} }
      \* the same with the slots hidden by omit-all-unless-present (the flag travels in the list structure, not in an entry)
      \cup { History(L3, sigs, <<KeygenStep(ListOf(<<<<"V", v7>>, <<"U">>, <<"U">>>>, 1), 1, 0), IF nd = 1 THEN NdQualStep(1, fl, 0) ELSE QualStep(1, fl, 0, 4), EncStepC(fl), DecStep(3, 2)>>, "neg", "fill-hidden-omitall")
             : fl \in fills \cup { ListOf(<<<<"V", v7>>, <<"V", FromNat(3)>>, <<"U">>>>, 1) }, nd \in {0, 1} }
@@ -192,6 +196,13 @@ SigCases ==
      \cup { History(L3, 1, <<KeygenStep(ListOf(<<<<"V", v7>>, <<"U">>, <<"U">>>>, 1), 0, 0), QualStep(1, ListOf(<<<<"V", v7>>, <<"V", FromNat(9)>>, <<"U">>>>, 1), 0, 4),
                               SignStep(2, ListOf(<<<<"V", v7>>, <<"V", FromNat(9)>>, <<"V", FromNat(5)>>>>, 1), One, 5), VerStep(ListOf(<<<<"V", v7>>, <<"V", FromNat(9)>>, <<"V", FromNat(5)>>>>, 1), 3, One),
                               VerStep(ListOf(<<<<"V", v7>>, <<"V", FromNat(9)>>, <<"U">>>>, 1), 3, One)>>, "sig", "after-qualify") }
+     \* signing with a key that was moved by adjust_nondelegable (its free-slot table was rewritten): for the adjusted list and for extensions of it
+     \cup UNION { LET pl == ListOf(<<<<"U">>, <<"U">>, <<"U">>>>, 1) IN
+                  { History(L3, 1, <<NdKeygenStep(pl, 0), NdQualStep(1, fr, 0), AdjNdStep(2, 1, fr, to), SignStep(3, to, One, 4), VerStep(to, 4, One),
+                                         SignStep(3, ex, One, 5), VerStep(ex, 6, One), VerStep(to, 6, One)>>, "sig", "after-adjust")
+                    : fr \in { ListOf(<<<<"V", v7>>, <<"U">>, <<"U">>>>, 1) },
+                      to \in { ListOf(<<<<"U">>, <<"V", FromNat(9)>>, <<"U">>>>, 1), ListOf(<<<<"V", v7>>, <<"V", FromNat(9)>>, <<"U">>>>, 1) },
+                      ex \in { ListOf(<<<<"V", FromNat(3)>>, <<"V", FromNat(9)>>, <<"V", FromNat(5)>>>>, 1), ListOf(<<<<"V", v7>>, <<"V", FromNat(9)>>, <<"V", FromNat(5)>>>>, 1) } } }
      \* lists whose entries carry the omitFromKeys flag: for signing and verification a list is (slot, identity) pairs, the flag concerns keys only.
      \* Signed under the flagged list: verifies under it and under the same list without the flag, not under the list without the entry
      \* (direct and precomputed forms); m >= r among the messages
